@@ -216,20 +216,17 @@ func (w *World) pxDecodeTag(dec *ssa.Function, t int) tagRun {
 		onReturn: func(fr *pxFrame, ret *ssa.Return, results []*Term, st *pxState) {
 			idx := errIndex(dec.Signature)
 			isErr := false
-			if idx >= 0 && !isNilConst(ret.Results[idx]) {
-				e := ret.Results[idx]
-				if _, mk := e.(*ssa.MakeInterface); mk {
+			if idx >= 0 && !isNilConst(ret.Results[idx]) && !errKnownNil(results[idx], st.env) {
+				// the error is classified by the value that reaches the return on THIS path
+				// (a named result / merged `return v, err` is a φ: its term is the edge taken)
+				if pxErrConstructed(ret.Results[idx], results[idx]) {
 					run.Rejected = true
 					if run.Pos == "" {
 						run.Pos = w.instrPos(ret)
 					}
 					return
 				}
-				if s, has := st.env["("+results[idx].key+" != nil:error)"]; has && s.Equal(single(0)) {
-					isErr = false
-				} else {
-					isErr = true
-				}
+				isErr = true
 			}
 			if isErr {
 				return // a failed read: not a form
